@@ -30,7 +30,7 @@ package pogreb
 //@   ensures written: err == nil ==> sameBytes(fData[fidOf[dl.curSeg.file.File]], int(off), contents(data), off(data), len(data))
 //@   ensures kept: forall i int :: 0 <= i && i < 32767 && old(dl.segments[i]) != nil ==> dl.segments[i] == old(dl.segments[i])
 //@   ensures [C03] appendonly: err == nil ==> forall h ref :: old(hOpen[h]) ==> hOpen[h] && fidOf[h] == old(fidOf[h]) && fLen[fidOf[h]] >= old(fLen[fidOf[h]]) && (fidOf[h] != fidOf[dl.curSeg.file.File] ==> fLen[fidOf[h]] == old(fLen[fidOf[h]]) && fData[fidOf[h]] == old(fData[fidOf[h]]) && fDur[fidOf[h]] >= old(fDur[fidOf[h]]))
-//@   ensures [C03] prefix: err == nil ==> forall q int :: 0 <= q && q < int(off) && old(hOpen[dl.curSeg.file.File]) ==> fData[fidOf[dl.curSeg.file.File]][q] == old(fData[fidOf[dl.curSeg.file.File]])[q]
+//@   ensures [C03] prefix: err == nil ==> forall h ref, q int :: h == dl.curSeg.file.File && old(hOpen[h]) && 0 <= q && q < int(off) ==> fData[fidOf[h]][q] == old(fData[fidOf[h]])[q]
 //@   ensures sizes: forall f *file :: f != dl.curSeg.file && !fresh(f) ==> f.size == old(f.size) && f.File == old(f.File)
 //@   flag lossless
 //@   modifies dl.curSeg, dl.segments, dl.maxSequenceID, any(segmentMeta).Full, any(segmentMeta).PutRecords, any(segmentMeta).DeleteRecords, any(file).size, dirFid[dl.opts.FileSystem], fLen, fDur, fData, hOpen, hPos, fidOf, fidName
